@@ -196,9 +196,29 @@ class TreeBuilder(ET.TreeBuilder):
             if text:
                 raise ParseError(f"Tail text '{text}' after <{tag}>")
             logger.debug(f"Popping tag '{tag[1:]}'")
-            self.end(tag[1:])
+            self._end(tag[1:])
         else:
             self._start(tag, text, closetag)
+
+    @property
+    def _open(self) -> list:
+        """Tags of the elements currently open, outermost first."""
+        return self.__dict__.setdefault("_open_tags", [])
+
+    def _end(self, tag: str) -> None:
+        """Pop the innermost open element, which must be ``tag``."""
+        if self._open:
+            if self._open[-1] != tag:
+                raise ParseError(
+                    f"End tag </{tag}> doesn't match open element <{self._open[-1]}>"
+                )
+            self._open.pop()
+        self.end(tag)
+
+    def close(self) -> ET.Element:
+        if self._open:
+            raise ParseError(f"Unclosed elements at end of data: {self._open}")
+        return super().close()
 
     def _start(self, tag: str, text: Optional[str], closetag: Optional[str]) -> None:
         """
@@ -210,6 +230,7 @@ class TreeBuilder(ET.TreeBuilder):
         """
         logger.debug(f"Pushing tag '{tag}'")
         self.start(tag, {})
+        self._open.append(tag)
         if text:
             # OFX "element" i.e. data-bearing leaf
             logger.debug(f"Data text '{text}'")
@@ -217,11 +238,11 @@ class TreeBuilder(ET.TreeBuilder):
             # End tags are optional for OFXv1 data elements
             # End all elements, whether or not they're explicitly ended
             logger.debug(f"Popping tag '{tag}'")
-            self.end(tag)
+            self._end(tag)
         elif closetag:
             # Empty OFX "aggregate" branch
             logger.debug(f"Popping tag '{closetag}'")
-            self.end(tag)
+            self._end(tag)
 
     @staticmethod
     def _groomstring(string: str) -> Optional[str]:
